@@ -74,6 +74,29 @@ func (e *c14PErr) Error() string {
 	return e.msg
 }
 
+// values that implement error AND another interface zap.Any knows: Any must test the marshalers before error, and
+// error before fmt.Stringer. Their Error() text carries the marker the model keys on ("EO:", "EA:", "ES:").
+type c14ErrObj struct{ msg string }
+
+func (e c14ErrObj) Error() string { return e.msg }
+func (e c14ErrObj) MarshalLogObject(enc zapcore.ObjectEncoder) error {
+	enc.AddString("id", e.msg)
+	return nil
+}
+
+type c14ErrArr struct{ msg string }
+
+func (e c14ErrArr) Error() string { return e.msg }
+func (e c14ErrArr) MarshalLogArray(enc zapcore.ArrayEncoder) error {
+	enc.AppendString(e.msg)
+	return nil
+}
+
+type c14ErrStr struct{ msg string }
+
+func (e c14ErrStr) Error() string  { return e.msg }
+func (e c14ErrStr) String() string { return "stringer:" + e.msg }
+
 type c14Struct struct{ ID int }
 
 type c14Stringer struct{ ID int }
@@ -142,6 +165,12 @@ func c14Build(a c14Arg) any {
 			return (*c14PErr)(nil)
 		case "perr":
 			return &c14PErr{tok}
+		case "errobj":
+			return c14ErrObj{tok}
+		case "errarr":
+			return c14ErrArr{tok}
+		case "errstr":
+			return c14ErrStr{tok}
 		default:
 			return c14Err{tok}
 		}
@@ -1006,6 +1035,11 @@ func c14GenArgs(r *Rand, maxLen int, hostile, forFmt bool) []c14Arg {
 			args = append(args, c14Arg{T: "s", Tok: c14H("k" + strconv.Itoa(id))})
 			if len(args) < n {
 				v := c14GenArg(r, id+1, false, forFmt)
+				if r.Chance(1, 5) { // an error that is also a marshaler / a Stringer, as a pair value
+					kind := Pick(r, []string{"errobj", "errarr", "errstr"})
+					mark := map[string]string{"errobj": "EO:", "errarr": "EA:", "errstr": "ES:"}[kind]
+					v = c14Arg{T: "e", VK: kind, Tok: c14H(mark + strconv.Itoa(id+1))}
+				}
 				args = append(args, v)
 			}
 		}
